@@ -62,16 +62,20 @@ int run(const Args &args, const std::vector<Level<Case>> &levels, const std::fun
           w.st.add("enumerated", (long long)w.idx / w.nshards + ((long long)w.idx % w.nshards > w.shard ? 1 : 0));
         },
         [&](const vf::CrashInfo &ci, vf::Stats &st) {
-          // confirm alone, twice, with a longer limit
-          int repro = 0; std::string err, how;
+          // confirm alone, twice, with a longer limit; a run that completes alone and reports ordinary violations
+          // (e.g. the worker only died of the per-case timer) contributes those violations instead
+          int repro = 0; std::string err, how, out; std::vector<std::string> reported;
+          vf::J cj = vf::jparse(ci.casejson); Case c = Case::from(cj);
           for (int k = 0; k < 2; k++) {
-            vf::J cj = vf::jparse(ci.casejson); Case c = Case::from(cj);
-            how = vf::run_isolated([&]() { vf::Stats s2; oracle(c, s2); return 0; }, case_limit_s * 5, &err);
-            if (!how.empty()) repro++;
+            out.clear();
+            how = vf::run_isolated([&]() { vf::Stats s2; oracle(c, s2); for (auto &v : s2.viol) { std::string w = v.what; for (auto &ch : w) if (ch == '\n') ch = ' '; printf("VIOL\t%s\n", w.c_str()); } return s2.nviol ? 3 : 0; }, case_limit_s * 5, &err, &out);
+            if (how == "exit 3") { std::istringstream is(out); std::string line; while (std::getline(is, line)) if (line.rfind("VIOL\t", 0) == 0) reported.push_back(line.substr(5)); }
+            else if (!how.empty()) repro++;
           }
           if (repro == 2) {
-            vf::J cj = vf::jparse(ci.casejson); Case c = Case::from(cj);
             st.violation(c.key(), "crash (" + how + ") while executing this case: " + err.substr(0, 1200), ci.casejson);
+          } else if (!reported.empty()) {
+            st.violation(c.key(), reported[0], ci.casejson);
           } else {
             fprintf(stderr, "WARNING: worker died (%s) on a case that does not fail alone (%d/2); case %s\n", ci.how.c_str(), repro, ci.casejson.substr(0, 300).c_str());
             st.add("unreproduced_worker_deaths"); st.capped = true;
